@@ -257,6 +257,18 @@ func vfRunSender(t *testing.T, sc *vfTwccScript, out *vfWriter) {
 			return copy(b, cur), a, nil
 		}))
 
+	// another connection of the same factory receives the same stream with transport-wide numbers of its own: nothing of
+	// it may show in the feedback of the first one
+	twin, err := f.NewInterceptor("twin")
+	if err != nil {
+		t.Fatalf("VERIF-INFRA NewInterceptor (twin): %v", err)
+	}
+	twin.BindRTCPWriter(interceptor.RTCPWriterFunc(func(p []rtcp.Packet, _ interceptor.Attributes) (int, error) { return len(p), nil }))
+	var twinCur []byte
+	twinReader := twin.BindRemoteStream(info, interceptor.RTPReaderFunc(
+		func(b []byte, a interceptor.Attributes) (int, interceptor.Attributes, error) { return copy(b, twinCur), a, nil }))
+	defer func() { _ = twin.Close() }()
+
 	type recObs struct {
 		w      uint16
 		t0, t1 int64
@@ -280,6 +292,13 @@ func vfRunSender(t *testing.T, sc *vfTwccScript, out *vfWriter) {
 			pkt := rtp.Packet{Header: hdr, Payload: []byte{1, 2, 3}}
 			if cur, err = pkt.Marshal(); err != nil {
 				t.Fatalf("VERIF-INFRA marshal rtp: %v", err)
+			}
+			if i%3 == 0 { // (the other connection)
+				text, _ := (&rtp.TransportCCExtension{TransportSequence: st.W + 1000}).Marshal()
+				th := rtp.Header{Version: 2, SSRC: 0x55667788, SequenceNumber: uint16(i)} //nolint:gosec
+				_ = th.SetExtension(5, text)
+				twinCur, _ = (&rtp.Packet{Header: th, Payload: []byte{7}}).Marshal()
+				_, _, _ = twinReader.Read(make([]byte, 1500), nil)
 			}
 			if i%5 == 4 {
 				if _, _, err = plain.Read(buf, nil); err != nil {
